@@ -156,18 +156,21 @@ func TestGvcReplay(t *testing.T) {
 		src: gvcHeader + `
 func TestGvcReplay(t *testing.T) {
 	dir := t.TempDir()
-	gvcWrite(t, dir, "Taskfile.yml", "version: '3'\nsilent: true\ntasks:\n  a:\n    run: once\n    deps: [b]\n    cmds: [\"echo a\"]\n  b:\n    run: once\n    deps: [a]\n    cmds: [\"echo b\"]\n")
-	var out bytes.Buffer
-	e := gvcExec(t, dir, &out)
-	done := make(chan error, 1)
-	go func() { done <- e.Run(context.Background(), &task.Call{Task: "a"}) }()
-	select {
-	case err := <-done:
-		if err == nil {
-			t.Fatalf("GVC-REPLAY-REPRODUCED: a cyclic Taskfile ran to completion without an error")
+	gvcWrite(t, dir, "Taskfile.yml", "version: '3'\nsilent: true\ntasks:\n  x:\n    deps: [a, b]\n  a:\n    run: once\n    deps: [b]\n    cmds: [\"echo a\"]\n  b:\n    run: once\n    deps: [a]\n    cmds: [\"echo b\"]\n")
+	// "a": the cycle is entered from one side; "x": from both sides at once (each execution waits for the other)
+	for _, entry := range []string{"a", "x", "x", "x"} {
+		var out bytes.Buffer
+		e := gvcExec(t, dir, &out)
+		done := make(chan error, 1)
+		go func() { done <- e.Run(context.Background(), &task.Call{Task: entry}) }()
+		select {
+		case err := <-done:
+			if err == nil {
+				t.Fatalf("GVC-REPLAY-REPRODUCED: a cyclic Taskfile ran to completion without an error (entry %s)", entry)
+			}
+		case <-time.After(5 * time.Second):
+			t.Fatalf("GVC-REPLAY-REPRODUCED: a -> b -> a with run: once, entered through %s, did not return within 5 s (each execution waits for the other)", entry)
 		}
-	case <-time.After(5 * time.Second):
-		t.Fatalf("GVC-REPLAY-REPRODUCED: a -> b -> a with run: once did not return within 5 s (each execution waits for the other)")
 	}
 }
 `}},
